@@ -342,7 +342,7 @@ pub fn law_holds(f: &F, input: Val, vars: Vec<Val>) -> Result<(), String> {
                 "law output: {:?}",
                 outs.iter().map(|o| match o {
                     Ok(v) => format!("{v}"),
-                    Err(e) => format!("{e:?}"),
+                    Err(e) => ev_json(e).to_string(),
                 }).collect::<Vec<_>>()
             ))
         }
